@@ -324,6 +324,11 @@ fn flow(c: &Case) -> Out {
             let signed = b.sign_embeddable(fmt).map_err(|e| Out::SignErr(report::err_kind(&e)))?;
             Ok((asset, at, ph.len(), signed, ex.len(), budget))
         } else {
+            if c.extras.iter().any(|e| e.0 == Zone::Beyond) {
+                // the new route rejects a range past the end of the asset while hashing; on the legacy
+                // route the caller supplies the hash, so such a list is simply an invalid input
+                return Err(Out::EarlyErr("legacy-input", "exclusion-beyond-asset".into()));
+            }
             let signer = make_signer(c);
             let ctx = Context::new().with_settings(settings().as_str()).map_err(|e| Out::Harness(format!("{e:?}")))?;
             let mut b = Builder::from_context(ctx).with_definition(definition(c)).map_err(|e| Out::Harness(format!("{e:?}")))?;
@@ -468,10 +473,10 @@ fn random_case(rng: &mut Rng) -> Case {
     };
     let mut extras = Vec::new();
     for i in 0..n {
-        let z = match rng.below(8) {
-            0 | 1 => Zone::Before,
-            2 | 3 | 4 => Zone::After,
-            5 | 6 => {
+        let z = match rng.below(24) {
+            0..=5 => Zone::Before,
+            6..=14 => Zone::After,
+            15..=22 => {
                 if tail > 0 {
                     Zone::Far
                 } else {
@@ -556,7 +561,7 @@ fn main() {
         }
     }
     // directed: minimal witnesses of the reported finding (run on every invocation) + the neighbours that hold
-    for (n, origin) in [(8usize, "directed-holds"), (9, "directed")] {
+    for (n, origin) in [(7usize, "directed-holds"), (8, "directed")] {
         let mut c = base_case("jpg", false);
         c.extras = (0..n).map(|i| (Zone::After, i, 1)).collect();
         c.origin = origin;
